@@ -86,6 +86,20 @@ CHECKS = {
         "Pausing a thread at a line event does not change what the code computes; preemption inside one C-level write is only reached by the free-running facet.",
         "DESIGN.md section 3 C16",
     ),
+    "C05": (
+        "exploration",
+        "schedule exploration (Hypothesis-generated programs x plans): real threads parked at logging-call boundaries and real asyncio tasks parked at await points by a harness-owned scheduler; identity oracle on current_action() per worker, metamorphic equality of the parsed forest across schedules, model equality",
+        "Structured concurrent programs (threads started bare / via preserve_context / via continue_task; asyncio tasks with nested gather, shared contexts, handed-over action objects) are each executed under several generated schedules; every worker's current_action() must be its own stack top at every step and across every park/resume, and the reconstructed forest must equal the model and be identical for all schedules. Holds on every schedule explored.",
+        "Interleavings finer than logging-call boundaries / await points are outside the property's quantifier. Sibling order among concurrent workers is not compared.",
+        "DESIGN.md section 3 C05",
+    ),
+    "C06": (
+        "exploration",
+        "property-based testing (Hypothesis): programs with hand-offs (inline, thread, forked process with its own log file) x merge permutations, model equality of the parsed merged log; line-level schedule exploration (generated + enumerated single-preemption plans) of concurrent calls of one preserve_context callable; sequential call histories",
+        "Generated programs hand work to other threads/processes at arbitrary depths (multi-hop, many ids), the sides' logs are merged in a generated order and must parse to the model forest; the single-use guarantee of preserve_context is explored under harness-owned interleavings of 2-3 threads at source-line granularity in eliot/_action.py. Holds on everything explored.",
+        "Ids used twice or never are outside the quantifier. Scheduler assumption as for C16.",
+        "DESIGN.md section 3 C06",
+    ),
 }
 
 NOT_YET = "check not built yet in this round; see DESIGN.md for the planned generator and oracle"
